@@ -86,3 +86,42 @@ def run():
         if extra_fired:
             return n, dict(what, observed='unexpected event actions %r' % extra_fired)
     return n, None
+
+
+def run_coincident_alter():
+    """two enabled Alter events on the same field of the same device at the same instant both take effect, in device order (like the
+    same two events a little apart); coincident events on two different devices do not disturb each other"""
+    import contextlib
+    import io
+    import logging
+    import numpy as np
+    import andes
+    logging.getLogger('andes').setLevel(logging.CRITICAL)
+    n = 0
+    for label, second_dev, times in (('same device, same instant', 'PQ_0', (0.5, 0.5)), ('same device, 0.1 s apart', 'PQ_0', (0.5, 0.6)),
+                                     ('two devices, same instant', 'PQ_1', (0.5, 0.5))):
+        n += 1
+        with contextlib.redirect_stdout(io.StringIO()), contextlib.redirect_stderr(io.StringIO()):
+            ss = andes.load(andes.get_case('kundur/kundur_full.xlsx'), default_config=True, no_output=True, setup=False)
+            for tg in list(ss.Toggle.idx.v):
+                ss.Toggle.alter('u', tg, 0)
+            ss.add('Alter', dict(t=times[0], model='PQ', dev='PQ_0', src='Ppf', attr='v', method='+', amount=0.2))
+            ss.add('Alter', dict(t=times[1], model='PQ', dev=second_dev, src='Ppf', attr='v', method='*', amount=1.05))
+            ss.setup()
+            ss.PFlow.run()
+            ss.TDS.config.tf = 0.4
+            ok = ss.TDS.run()
+            before = {d: float(ss.PQ.get(src='Ppf', attr='v', idx=d)) for d in ('PQ_0', 'PQ_1')}
+            ss.TDS.config.tf = 0.8
+            ok = ok and ss.TDS.run()
+        if not ok:
+            return n, {'scenario': label, 'observed': 'run failed'}
+        after = {d: float(ss.PQ.get(src='Ppf', attr='v', idx=d)) for d in ('PQ_0', 'PQ_1')}
+        want = dict(before)
+        want['PQ_0'] = before['PQ_0'] + 0.2
+        want[second_dev] = want[second_dev] * 1.05
+        for d in want:
+            if abs(after[d] - want[d]) > 1e-9:
+                return n, {'scenario': label, 'events': 'Alter(PQ_0.Ppf += 0.2 at %r), Alter(%s.Ppf *= 1.05 at %r)' % (times[0], second_dev, times[1]),
+                           'observed': '%s.Ppf = %r after the events, expected %r (value before the events %r)' % (d, after[d], want[d], before[d])}
+    return n, None
